@@ -92,7 +92,8 @@ RunOutcome exec_C07(const Case &c) {
         EnvSpec e = c.envs[k];
         // after an exactly-zero pivot the library reads never-written memory (known finding KF-zero-pivot): schedules of a
         // singular input run with clean fresh memory only
-        if (ref_singular) { if (e.garbage != G_ZERO || e.wsgarbage != G_ZERO) out.stats["dirty_suppressed_singular"] += 1; e.garbage = G_ZERO; e.wsgarbage = G_ZERO; }
+        // (only the growable factor arrays and the caller workspace: every other fresh block keeps the drawn contents)
+        if (ref_singular) { if (e.garbage != G_ZERO || e.wsgarbage != G_ZERO) out.stats["dirty_factor_arrays_clean_singular"] += 1; e.garbage |= G_CLEAN_GROWTH; e.wsgarbage = G_ZERO; }
         TaskPlan q = apply_env(plan, e);
         PlanRun pr = run_plan_single(q, c07_cfg(k == 0));
         h.u64(pr.evhash);
